@@ -179,6 +179,193 @@ def case_key(entries, common):
 
 
 # --------------------------------------------------------------------------
+# 'scale' stream: behaviour that depends on SIZE (array length thresholds, dict order of short and long arrays)
+# --------------------------------------------------------------------------
+
+LONG_EXACT = [63, 64, 65, 255, 256, 257]
+
+
+def inc_rows(rng, n, hi):
+    """n strictly increasing row ids in [0, hi] (hi >= n - 1): a run, a strided run, or a sorted random sample; often ending at hi."""
+    if n == 0:
+        return []
+    r = rng.random()
+    if r < 0.3:
+        start = rng.randint(0, hi - n + 1)
+        out = list(range(start, start + n))
+    elif r < 0.55:
+        step = rng.randint(1, max(1, (hi + 1) // n))
+        start = rng.randint(0, hi - (n - 1) * step)
+        out = list(range(start, start + n * step, step))
+    else:
+        out = sorted(rng.sample(range(hi + 1), n))
+    if rng.random() < 0.3:
+        out[-1] = hi
+    return out
+
+
+def scale_lengths(rng, n, budget=1500):
+    """Row-id array lengths for n >= 2 entries: at least one non-empty short (< 64) and one long (>= 64) array."""
+    def short():
+        return rng.randint(0, 10)
+
+    def long_():
+        return rng.choice(LONG_EXACT) if rng.random() < 0.5 else rng.randint(64, 600)
+    ls = [rng.randint(1, 10), long_()]
+    while len(ls) < n:
+        x = long_() if rng.random() < 0.45 else short()
+        ls.append(x if sum(ls) + x <= budget else short())
+    rng.shuffle(ls)
+    return ls
+
+
+def gen_scale_base(rng, giant=False):
+    """(entries, common, descriptor) with 2..8 entries mixing short and long strictly increasing row-id arrays."""
+    n = 3 if giant else rng.randint(2, 8)
+    arity = rng.randint(1, 3)
+    ccls, kcls = rng.randint(0, 3), rng.randint(0, 3)
+    common = value_in_class(rng, kcls)
+    ls = [rng.randint(1, 5), rng.randint(69000, 71000), rng.randint(0, 70)] if giant else scale_lengths(rng, n)
+    hi = 2 ** 32 - 1
+    if not giant and max(ls) <= 256 and rng.random() < 0.5:
+        hi = 255                                   # 1-byte row-id words stay admissible (C11 b)
+    elif not giant and rng.random() < 0.35:
+        hi = 65535
+    keys, seen = [], set()
+    while len(keys) < n:
+        k = tuple(value_in_class(rng, rng.randint(0, ccls)) if rng.random() < 0.5 else rng.randint(0, 9) for _ in range(arity))
+        if k not in seen:
+            seen.add(k)
+            keys.append(k)
+    entries = [(k, inc_rows(rng, l, hi)) for k, l in zip(keys, ls)]
+    return entries, common, {"arity": arity, "n": n, "lengths": ls, "rowid_max": hi}
+
+
+def dict_orders(rng, entries):
+    """Every dict order for <= 3 entries; else as generated, reversed, short-first, long-first and two shuffles."""
+    import itertools
+    if len(entries) <= 3:
+        return [list(p) for p in itertools.permutations(entries)]
+    out = [list(entries), list(reversed(entries)), sorted(entries, key=lambda e: len(e[1])), sorted(entries, key=lambda e: -len(e[1]))]
+    for _ in range(2):
+        e = list(entries)
+        rng.shuffle(e)
+        out.append(e)
+    return out
+
+
+def gen_scale(rng, n_base, n_giant):
+    """[(entries, common, descriptor, in_coq)] - giant cases (one ~70 000-id array) are judged by the struct oracle only."""
+    out = []
+    for _ in range(n_base):
+        entries, common, desc = gen_scale_base(rng)
+        for e in dict_orders(rng, entries):
+            out.append((e, common, desc, True))
+    for _ in range(n_giant):
+        entries, common, desc = gen_scale_base(rng, giant=True)
+        for e in (entries, list(reversed(entries)), sorted(entries, key=lambda x: len(x[1])), sorted(entries, key=lambda x: -len(x[1]))):
+            out.append((list(e), common, desc, False))
+    return out
+
+
+def scale_indexes(impl, rng, n):
+    """Real indexes built by from_array on 100..2000-row arrays with a skewed value distribution (long and short entries)."""
+    np = impl.np
+    out = []
+    for _ in range(n):
+        rows = rng.choice([100, 128, 129, 200, 500, 1000, 2000, rng.randint(100, 2000)])
+        cols = rng.choice([None, None, 1, 2, 3])
+        vals = rng.sample([0, 1, 2, 3, 5, 9, 300, 70000, 2 ** 33], 5)
+        weights = [50, 30, 3, 1, 1]
+        rng.shuffle(weights)
+        cells = rng.choices(vals, weights=weights, k=rows * (cols or 1))
+        arr = np.array(cells, dtype=np.int64).reshape((rows,) if cols is None else (rows, cols))
+        try:
+            if rng.random() < 0.5:
+                idx = impl.catii.iindex.from_array(arr, common=int(rng.choice(vals + [7])))
+            else:
+                idx = impl.catii.iindex.from_array(arr)
+            idx.validate(check_comprehensive_unique=True)
+        except Exception:  # noqa  from_array's own domain (C01)
+            continue
+        out.append(idx)
+    return out
+
+
+def roundtrip_fails(impl, entries, common):
+    try:
+        return oracle_roundtrip(entries, common, impl.load(impl.save(entries, common)))
+    except Exception as e:  # noqa
+        return "save raised %s: %s" % (type(e).__name__, e)
+
+
+def shrink_scale(impl, entries, common):
+    """Cheap shrink of a failing dict: an ordered pair of its entries, then shorter arrays (bisection on each length)."""
+    best = list(entries)
+    for i in range(len(entries)):
+        for j in range(i + 1, len(entries)):
+            cand = [entries[i], entries[j]]
+            if roundtrip_fails(impl, cand, common):
+                best = cand
+                break
+        if len(best) == 2:
+            break
+    for i in range(len(best)):
+        lo, hi = 0, len(best[i][1])            # smallest length that still fails, by bisection
+        while lo < hi:
+            mid = (lo + hi) // 2
+            cand = list(best)
+            cand[i] = (best[i][0], best[i][1][:mid])
+            if roundtrip_fails(impl, cand, common):
+                hi = mid
+            else:
+                lo = mid + 1
+        best[i] = (best[i][0], best[i][1][:hi])
+    return best if roundtrip_fails(impl, best, common) else list(entries)
+
+
+def run_scale_stream(ctx, impl, n_base, n_giant):
+    """Returns (case literals for chk_c10, python-oracle failures, records of the literal cases, distribution)."""
+    lits, bad, recs, dist = [], [], [], {"orders": 0, "giant_oracle_only": 0, "short_nonempty_before_long": 0}
+    for entries, common, desc, in_coq in gen_scale(ctx.rng, n_base, n_giant):
+        lens_ = [len(v) for _, v in entries]
+        rec = {"entries": [[list(k), v] for k, v in entries], "common": common} if in_coq else \
+              {"entries_summary": [[list(k), len(v), v[:3]] for k, v in entries], "common": common, "row_id_lengths": lens_}
+        try:
+            data = impl.save(entries, common)
+        except Exception as e:
+            bad.append(dict(rec, stream="scale", what="save raised %s: %s" % (type(e).__name__, e)))
+            continue
+        o = impl.load(data)
+        why = oracle_roundtrip(entries, common, o)
+        if why:
+            if not in_coq:
+                rec = {"entries": [[list(k), v] for k, v in entries], "common": common}
+            got = dict(o[1]) if o[0] == "loaded" else {}
+            first = next(([list(k), v[:6], got.get(tuple(k), [])[:6]] for k, v in entries if got.get(tuple(k)) != v), None)
+            if not any(b.get("stream") == "scale-shrunk" for b in bad):
+                small = shrink_scale(impl, entries, common)
+                o2 = impl.load(impl.save(small, common))
+                bad.append({"entries": [[list(k), v] for k, v in small], "common": common, "stream": "scale-shrunk", "row_id_lengths": [len(v) for _, v in small],
+                            "what": "%s (shrunk; row-id array lengths in dict order %r)" % (oracle_roundtrip(small, common, o2), [len(v) for _, v in small]),
+                            "observed": repr(o2)[:300]})
+            bad.append(dict(rec, stream="scale", row_id_lengths=lens_, first_entry_that_differs_key_saved_loaded=first,
+                            what="%s (row-id array lengths in dict order %r)" % (why, lens_), observed=repr(o)[:300]))
+        dist["orders"] += 1
+        dist["short_nonempty_before_long"] += any(0 < a < 64 and any(b >= 64 for b in lens_[i + 1:]) for i, a in enumerate(lens_))
+        for l in lens_:
+            b = "len0" if l == 0 else "len1-10" if l <= 10 else "len63-65" if 63 <= l <= 65 else "len255-257" if 255 <= l <= 257 else "len>60000" if l > 60000 else "len64-600"
+            dist[b] = dist.get(b, 0) + 1
+        ctx.nontrivial.add(case_key(entries, common))
+        if in_coq:
+            lits.append("(%s, %s, %s, %s)" % (lit_entries(entries), core.zlit(common), lit_bytes(data), lit_obs(o)))
+            recs.append(rec)
+        else:
+            dist["giant_oracle_only"] += 1
+    return lits, bad, recs, dist
+
+
+# --------------------------------------------------------------------------
 # the implementation on real files
 # --------------------------------------------------------------------------
 
@@ -450,12 +637,13 @@ def lit_index(sp):
     return "(Build_iindex %s %s %s %s)" % (ents, core.zlit(sp["common"]), core.zlit(sp["shape"][0]), core.zlist(sp["shape"][1:]))
 
 
-def run_index_stream(ctx, impl, n_from_array, n_hist):
+def run_index_stream(ctx, impl, n_from_array, n_hist, n_scale=0):
     """Real iindex objects: from_array and history-reached states.  Returns (literals, failures, records, distribution)."""
     lits, bad, recs, dist = [], [], [], {}
     todo = [("iindex.from_array", idx, spec_of(idx)) for idx in reachable_indexes(impl, ctx.rng, n_from_array)]
     todo = [t for t in todo if t[2]["common"] >= 0 and all(k[0] >= 0 for k, _ in t[2]["entries"])]
     todo += history_indexes(ctx, impl, n_hist)
+    todo += [("iindex.from_array(scale)", idx, spec_of(idx)) for idx in scale_indexes(impl, ctx.rng, n_scale)]
     for via, idx, sp in todo:
         rec = {"entries": sp["entries"], "common": sp["common"], "shape": sp["shape"], "from": via}
         try:
@@ -472,7 +660,7 @@ def run_index_stream(ctx, impl, n_from_array, n_hist):
         lits.append("(%s, %s, %s)" % (lit_index(sp), lit_bytes(data), lit_obs(o)))
         recs.append(rec)
         ctx.nontrivial.add(("idx", json.dumps(sp)))
-        kind = "from_array" if via == "iindex.from_array" else "history"
+        kind = "from_array" if via == "iindex.from_array" else "from_array_100-2000rows" if via.endswith("(scale)") else "history"
         dist["%s/%dD/word%d" % (kind, len(sp["shape"]), narrowest(max([sp["common"]] + [k[0] for k, _ in sp["entries"]])))] = \
             dist.get("%s/%dD/word%d" % (kind, len(sp["shape"]), narrowest(max([sp["common"]] + [k[0] for k, _ in sp["entries"]]))), 0) + 1
     return lits, bad, recs, dist
@@ -482,16 +670,21 @@ def run(ctx):
     ctx.rule = ("(d) entries dicts: arity 1..4 x 0..6 entries x coordinate class x common class (<=255, <=65535, <2^32, <2^63, independent, "
                 "boundary-biased) x row-id arrays of length 0..6 over {0,1,255,256,65535,65536,2^31,2^32-1,random}; (i) real iindex objects: "
                 "built by iindex.from_array and every well-formed unsigned state reached by C06-generator operation histories (1-D/2-D/3-D), "
-                "some re-labelled to 2/4/8-byte values; a case is distinct per (entries, common[, shape]); every case is saved and loaded for real")
+                "some re-labelled to 2/4/8-byte values, and from_array on skewed 100..2000-row arrays (long and short entries); (s) scale: dicts of 2..8 entries "
+                "mixing short (0..10) and long (64..600, exactly 63/64/65, 255/256/257) strictly increasing row-id arrays up to 2^32-1 in every dict order "
+                "(all permutations for <= 3 entries; else as generated / reversed / short-first / long-first / 2 shuffles), plus dicts with one ~70 000-id "
+                "array (judged by the direct oracle only); a case is distinct per (entries in dict order, common[, shape]); every case is saved and loaded for real")
     ctx.trusted = list(core.STD_TRUSTED) + TRUSTED
     pr, proof_ok = prove(ctx, "C10.v")
     build_check(ctx)
     impl = Impl(ctx)
-    n_gen, n_idx, n_hist = (600, 120, 150) if ctx.tier == "quick" else (20000, 2000, 3000)
+    n_gen, n_idx, n_hist, n_sbase, n_giant, n_sidx = (600, 120, 150, 10, 1, 10) if ctx.tier == "quick" else (20000, 2000, 3000, 150, 6, 120)
     lits, bad, recs, dist = run_stream(ctx, impl, n_gen)
-    ilits, ibad, irecs, idist = run_index_stream(ctx, impl, n_idx, n_hist)
-    ctx.evaluations = len(lits) + len(ilits)
-    ctx.samples = recs[:3] + irecs[:1] + irecs[-2:]
+    ilits, ibad, irecs, idist = run_index_stream(ctx, impl, n_idx, n_hist, n_sidx)
+    slits, sbad, srecs, sdist = run_scale_stream(ctx, impl, n_sbase, n_giant)
+    ctx.evaluations = len(lits) + len(ilits) + sdist["orders"]
+    ctx.coverage["scale_stream_distribution"] = dict(sorted(sdist.items()))
+    ctx.samples = recs[:3] + irecs[:1] + irecs[-1:] + [{"scale_case_row_id_lengths": [len(v) for _, v in srecs[0]["entries"]], "common": srecs[0]["common"]}] if srecs else recs[:3] + irecs[:3]
     ctx.coverage["input_distribution"] = dict(sorted(dist.items()))
     ctx.coverage["index_stream_distribution"] = dict(sorted(idist.items()))
     ctx.coverage["real_indexes_round_tripped"] = len(ilits)
@@ -502,18 +695,19 @@ def run(ctx):
     res = core.run_cases("c10", PRELUDE, lits, "entries_t * Z * list Z * obs", "chk_c10", "explain_c10", shard_size=100 if quick else 1300)
     ires = core.run_cases("c10i", "From Catii Require Import IIndex.Model Indx.Rebuild.\n" + PRELUDE, ilits, "iindex * list Z * obs", "chk_c10_idx", "explain_c10_idx",
                           shard_size=100 if quick else 1300)
-    ctx.coverage["model_disagreements"] = {"dicts": len(res.failing), "indexes": len(ires.failing)}
-    ctx.coverage["coq_case_shards_failed"] = len(res.errors) + len(ires.errors)
+    sres = core.run_cases("c10s", PRELUDE, slits, "entries_t * Z * list Z * obs", "chk_c10", "explain_c10", shard_size=4 if quick else 12)
+    ctx.coverage["model_disagreements"] = {"dicts": len(res.failing), "indexes": len(ires.failing), "scale_dicts": len(sres.failing)}
+    ctx.coverage["coq_case_shards_failed"] = len(res.errors) + len(ires.errors) + len(sres.errors)
     ctx.coverage["tie"] = ("W2 inside Coq: chk_c10 (real save bytes = model save bytes, real load result = model load result = input); chk_c10_idx (real index "
                            "states satisfy wf_b and storable_b, same bytes, same load result, rebuild (load bytes) = the index saved)")
 
     class Merged:
         pass
     m = Merged()
-    m.failing = list(res.failing) + [len(recs) + i for i in ires.failing]
-    m.errors = res.errors + ires.errors
-    m.explain = "\n".join(x for x in (res.explain, ires.explain) if x)
-    verdict(ctx, "C10", pr, proof_ok, bad + ibad, m, recs + irecs, "roundtrip:not-identity", "save then load did not return the saved data")
+    m.failing = list(res.failing) + [len(recs) + i for i in ires.failing] + [len(recs) + len(irecs) + i for i in sres.failing]
+    m.errors = res.errors + ires.errors + sres.errors
+    m.explain = "\n".join(x[-2000:] for x in (res.explain, ires.explain, sres.explain) if x)
+    verdict(ctx, "C10", pr, proof_ok, bad + ibad + sbad, m, recs + irecs + srecs, "roundtrip:not-identity", "save then load did not return the saved data")
 
 
 def verdict(ctx, prop, pr, proof_ok, bad, res, recs, sig, what):
